@@ -120,9 +120,9 @@ int libwifi_parse_radiotap_info(struct libwifi_radiotap_info *info, const unsign
                 break;
             case IEEE80211_RADIOTAP_TIMESTAMP:
                 info->timestamp.timestamp = le64toh(*(uint64_t *) it.this_arg);
-                info->timestamp.accuracy = le16toh(*(uint16_t *) (it.this_arg + 2));
-                info->timestamp.unit = *(uint8_t *) (it.this_arg + 3);
-                info->timestamp.flags = *(uint8_t *) (it.this_arg + 4);
+                info->timestamp.accuracy = get_unaligned_le16(it.this_arg + 8);
+                info->timestamp.unit = *(uint8_t *) (it.this_arg + 10);
+                info->timestamp.flags = *(uint8_t *) (it.this_arg + 11);
                 break;
             case IEEE80211_RADIOTAP_RTS_RETRIES:
                 info->rts_retries = *it.this_arg;
